@@ -276,21 +276,18 @@ func r07_2(c *Ctx, rule string) {
 	c.R.Check(isFieldLoad(upd.Key, "types.Stat.Path"), rule, con+"/key", c.pos(upd), "keyed by the stat's path", "receiver.files is not keyed by the stat's path")
 	isUpd := func(in ssa.Instruction) bool { return in == ssa.Instruction(upd) }
 	x := c.explorer(loop)
-	// (a) fileCanRequestData false
-	var fcd *ssa.Call
-	for _, call := range c.P.CallsTo(loop, "fsutil.fileCanRequestData") {
-		if cl, ok := call.(*ssa.Call); ok {
-			fcd = cl
-		}
-	}
-	if fcd == nil {
+	// (a) not requestable (the shared predicate, FileMode.IsRegular or the mask test written out)
+	reqs := c.requestableTests(loop, x)
+	if len(reqs) == 0 {
 		c.R.Missing(rule, "call of fileCanRequestData in the receive loop")
 	} else {
-		// its argument must be the stat's mode
-		c.R.Check(c.DerivesFrom(fcd.Call.Args[0], func(v ssa.Value) bool { return isFieldLoad(v, "types.Stat.Mode") }, 4), rule, con+"/predicate-arg", c.pos(fcd),
-			"fileCanRequestData is applied to the stat's mode", "fileCanRequestData is not applied to the received stat's mode")
-		c.ObUnreachable(rule, con+"/guard-regular", loop, map[string]bool{x.KeyAtEntry(fcd): false}, isUpd, "the registration of a requestable id", "fileCanRequestData(mode) is false")
-		c.ObReachable(rule, con+"/guard-regular-live", loop, map[string]bool{x.KeyAtEntry(fcd): true}, isUpd, "the registration of a requestable id", "fileCanRequestData(mode) is true")
+		for _, t := range reqs {
+			// its argument must be the stat's mode
+			c.R.Check(c.DerivesFrom(t.arg, func(v ssa.Value) bool { return isFieldLoad(v, "types.Stat.Mode") }, 4), rule, con+"/predicate-arg", c.pos(t.site),
+				"fileCanRequestData is applied to the stat's mode", "fileCanRequestData is not applied to the received stat's mode")
+		}
+		c.ObUnreachable(rule, con+"/guard-regular", loop, reqPins(reqs, false), isUpd, "the registration of a requestable id", "fileCanRequestData(mode) is false")
+		c.ObReachable(rule, con+"/guard-regular-live", loop, reqPins(reqs, true), isUpd, "the registration of a requestable id", "fileCanRequestData(mode) is true")
 	}
 	// (b) metadata-only selector said no
 	var sel *ssa.Call
